@@ -204,3 +204,52 @@ CLAIMS = {
         "technique": "partial evaluation (AST interpretation) of pure formatting methods over a finite abstract shape domain; template comparison",
     },
 }
+
+
+# Amendments after the second seeding round (applied to the texts above; a substring that no
+# longer exists is an error so the texts cannot silently drift).
+def _amend(prop: str, field: str, old: str, new: str) -> None:
+    text = CLAIMS[prop][field]
+    if old not in text:
+        raise AssertionError(f"claims amendment for {prop}.{field} does not apply: {old[:40]!r}")
+    CLAIMS[prop][field] = text.replace(old, new, 1)
+
+
+_amend("C03", "level", "fields stored only under tests admitting their own keywords; anonymous-id discipline.",
+       "fields stored only under tests admitting their own keywords; anonymous-id discipline; the segment indexes feeding the "
+       "constructor/destructor name comparison are right-anchored ([-1] own name, [-2] enclosing class).")
+_amend("C03", "note", "Not decided: constructor/destructor/operator recognition and qualifier values in general (runtime comparisons of names)",
+       "Not decided: constructor/destructor/operator recognition beyond which segments are compared, and qualifier values in general (runtime comparisons of names)")
+_amend("C06", "level", "validate after every _parse_type), no nullable token regex.",
+       "validate after every _parse_type), no nullable token regex, and the '#line' re-basing arithmetic (shared with C10).")
+_amend("C06", "note", "and that the reported line number is a line of the input (provenance of the number is decided under C10).",
+       "and that the reported line number is a line of the input beyond the #line arithmetic (provenance of the number is decided under C10).")
+_amend("C11", "level", "and the shape of both comment scans (every comment recorded, blank line detaches, real tokens kept).",
+       "the leading scan's shape (every comment recorded, blank line detaches, real token pushed back), the trailing scan decided per class "
+       "of token by walking its loop under a representative of each class (a line end stops it, doc comments are recorded, a plain comment "
+       "that ends the line ends the scan, real tokens are re-queued), and the lookup order: no token of the declaration is consumed between "
+       "the trailing lookup and the documented object.")
+_amend("C11", "note", "Not decided: the exact text of the doc string (string values).",
+       "Not decided: the exact text of the doc string (string values); which declaration a comment trails when several share one line. One "
+       "genuine finding is listed (enumerator lookup before its value, D24); two defects were repaired (block-comment accumulation, plain "
+       "trailing comment handing the next doc block to the finished declaration).")
+_amend("C14", "level", "closer set vs. token maps, LIFO use of the expectation stack.",
+       "closer set vs. token maps, LIFO use of the expectation stack, and the line-end test that bounds pragma contents (shared with C09).")
+_amend("C15", "level", "no global writes; tokens never mutated in parser.py.",
+       "no global writes; tokens never mutated in parser.py; closures handed out by factories (the preprocessor functions stored in "
+       "ParserOptions) capture read-only configuration only - no object built once in the factory is used per call.")
+_amend("C17", "level", "prefix declarators around suffix kinds delegate with a parenthesised declarator, arrays delegate the rest of the declarator (dimension order),",
+       "the C++ declarator nesting as a reference algebra (pointer / reference / function around anything whose text continues after the "
+       "name - array, function, pointer chains ending in one, to depth 3 - hands its declarator to the child's format_decl, parenthesised "
+       "around array/function), arrays delegate the rest of the declarator (dimension order),")
+_amend("C17", "note", "two defects were repaired (reference to function, array dimension order).",
+       "three defects were repaired (reference to function, array dimension order, pointer/reference/function around pointer-to-array/function).")
+_amend("C18", "level", "debug_print bodies and call sites effect-free;",
+       "debug_print bodies and call sites effect-free, and - because the verbose printer applies '%' to its format - every call site passes "
+       "a constant format whose conversions match its values (parsed data never becomes part of the format);")
+_amend("C19", "level", "gcc depfile argument handling (raise without targets, one -MQ per target), pcpp depfile contents.",
+       "gcc depfile argument handling (raise without targets, one -MQ per target), pcpp depfile contents, and the lexer's re-basing on the "
+       "kept line markers (shared with C10).")
+_amend("C20", "level", "default literals agreeing (library and CLI),",
+       "default literals agreeing (library and CLI), the codec used when none is given evaluated at every decoding site by constant "
+       "propagation and required to be the same,")
